@@ -3,7 +3,10 @@
 //! see /verif/DESIGN.md.
 
 mod big;
+mod chainbuild;
 mod ctx;
+mod dump;
+mod hooks;
 mod blockgen;
 mod gen_insc;
 mod gen_runes;
@@ -44,10 +47,17 @@ fn main() {
   }
   install_panic_hook();
   let prop = args[1].clone();
+  if prop == "worker" {
+    props::c13::worker_main(&args[2..]);
+  }
   let ctx = Ctx::parse(&prop, &args[2..]);
   let mut rep = Report::new(&prop);
   match prop.as_str() {
     p if props::chain_driver::CHAIN_PROPS.contains(&p) => props::chain::run(&ctx, &mut rep),
+    "C12" => props::c12::run(&ctx, &mut rep),
+    "C13" => props::c13::run(&ctx, &mut rep),
+    "C14" => props::c14::run(&ctx, &mut rep),
+    "C15" => props::c15::run(&ctx, &mut rep),
     "C25" => props::c25::run(&ctx, &mut rep),
     "C26" => props::c26::run(&ctx, &mut rep),
     "C29" | "C30" => props::c29::run(&ctx, &mut rep, &prop),
